@@ -3,25 +3,20 @@
 package checks
 
 import (
+	"fmt"
+	"sort"
+
+	"github.com/RoaringBitmap/roaring/v2"
 	faiss "github.com/blevesearch/go-faiss"
 	segment "github.com/blevesearch/scorch_segment_api/v2"
 
+	"verifharness/drive"
 	"verifharness/indep"
 	"verifharness/spec"
 )
 
 const vectorsMaybe = 1
 const vectorsBuild = true
-
-func vectorEquivalence(prop string, b *spec.BatchSpec, want *spec.Obs, mem, opened segment.Segment) *Violation {
-	return nil // replaced by the C14 machinery below when built
-}
-
-func checkVectorEnvelope(prop, tag string, f *indep.File, want *spec.Obs) *Violation { return nil }
-
-func vectorSegmentCheck(prop string, seg segment.Segment, want *spec.Obs, where string) *Violation {
-	return nil
-}
 
 func fakeReset()              { faiss.VerifReset() }
 func fakeLive() int64         { return faiss.VerifLive() }
@@ -34,4 +29,436 @@ func fakeOpCount() int64 {
 		}
 	}
 	return n
+}
+
+// ---------------------------------------------------------------------------
+// model of vector search
+
+type vecPair struct {
+	Doc   uint64  `json:"d"`
+	Score float32 `json:"s"`
+}
+
+// vecScore replicates the engine's arithmetic: float32 accumulation in
+// coordinate order; squared L2 (smaller is better) or dot product (larger is better).
+func vecScore(metric string, q, v []float32) float32 {
+	var sum float32
+	if metric == "l2_norm" {
+		for i := range q {
+			d := q[i] - v[i]
+			sum += float32(d * d)
+		}
+		return sum
+	}
+	for i := range q {
+		sum += float32(q[i] * v[i])
+	}
+	return sum
+}
+
+// better reports whether score a ranks strictly before b.
+func better(metric string, a, b float32) bool {
+	if metric == "l2_norm" {
+		return a < b
+	}
+	return a > b
+}
+
+func sortPairsV(p []vecPair) {
+	sort.Slice(p, func(i, j int) bool {
+		if p[i].Doc != p[j].Doc {
+			return p[i].Doc < p[j].Doc
+		}
+		return p[i].Score < p[j].Score
+	})
+}
+
+// vecSearch runs one search through the public API and returns the (doc, score) pairs.
+func vecSearch(seg segment.Segment, field string, q []float32, k int64, except *roaring.Bitmap, filter bool, eligible []uint64) ([]vecPair, error) {
+	vs, ok := seg.(segment.VectorSegment)
+	if !ok {
+		return nil, fmt.Errorf("%T is no VectorSegment", seg)
+	}
+	vi, err := vs.InterpretVectorIndex(field, filter, except)
+	if err != nil {
+		if vi != nil {
+			vi.Close()
+		}
+		return nil, fmt.Errorf("InterpretVectorIndex(%q): %w", field, err)
+	}
+	defer vi.Close()
+	return searchHandle(vi, q, k, filter, eligible)
+}
+
+func searchHandle(vi segment.VectorIndex, q []float32, k int64, filter bool, eligible []uint64) ([]vecPair, error) {
+	var pl segment.VecPostingsList
+	var err error
+	if filter {
+		pl, err = vi.SearchWithFilter(q, k, eligible, nil)
+	} else {
+		pl, err = vi.Search(q, k, nil)
+	}
+	if err != nil {
+		return nil, err
+	}
+	itr := pl.Iterator(nil)
+	var out []vecPair
+	for {
+		p, err := itr.Next()
+		if err != nil {
+			return nil, err
+		}
+		if p == nil {
+			break
+		}
+		out = append(out, vecPair{Doc: p.Number(), Score: p.Score()})
+		if len(out) > 1<<20 {
+			return nil, fmt.Errorf("runaway vector postings iteration")
+		}
+	}
+	if pl.Count() != uint64(len(out)) {
+		return nil, fmt.Errorf("VecPostingsList.Count()=%d but iteration yields %d", pl.Count(), len(out))
+	}
+	sortPairsV(out)
+	return out, nil
+}
+
+// vecOracle is the validity predicate of C14 over a returned pair set.
+// entries: the field's vectors in the segment; live: doc not excluded and eligible;
+// exact: the index is an exact one (fewer than 1000 vectors in the field).
+func vecOracle(entries []spec.VecEntry, metric string, q []float32, k int64, live func(uint64) bool, exact bool, got []vecPair) string {
+	type cand struct {
+		doc   uint64
+		score float32
+	}
+	var cands []cand
+	for _, e := range entries {
+		if live(e.Doc) {
+			cands = append(cands, cand{e.Doc, vecScore(metric, q, e.Vec)})
+		}
+	}
+	truePairs := map[vecPair]int{}
+	for _, c := range cands {
+		truePairs[vecPair{c.doc, c.score}]++
+	}
+	seen := map[vecPair]bool{}
+	for _, g := range got {
+		if seen[g] {
+			return fmt.Sprintf("pair %+v returned twice", g)
+		}
+		seen[g] = true
+		if truePairs[g] == 0 {
+			return fmt.Sprintf("returned pair (doc %d, score %v) is not the score of any vector of a live document (candidates %d)", g.Doc, g.Score, len(cands))
+		}
+	}
+	if k <= 0 {
+		if len(got) != 0 {
+			return fmt.Sprintf("k=%d but %d pairs returned", k, len(got))
+		}
+		return ""
+	}
+	if int64(len(got)) > k {
+		return fmt.Sprintf("%d pairs returned for k=%d", len(got), k)
+	}
+	if !exact {
+		return ""
+	}
+	sort.Slice(cands, func(i, j int) bool { return better(metric, cands[i].score, cands[j].score) })
+	kk := int(k)
+	if kk > len(cands) {
+		kk = len(cands)
+	}
+	if kk == 0 {
+		if len(got) != 0 {
+			return fmt.Sprintf("no live vectors but %d pairs returned", len(got))
+		}
+		return ""
+	}
+	kth := cands[kk-1].score
+	nBetter := 0
+	betterSet := map[vecPair]bool{}
+	tieMult := map[vecPair]int{}
+	for _, c := range cands {
+		switch {
+		case better(metric, c.score, kth):
+			nBetter++
+			betterSet[vecPair{c.doc, c.score}] = true
+		case c.score == kth:
+			tieMult[vecPair{c.doc, c.score}]++
+		}
+	}
+	for p := range betterSet {
+		if !seen[p] {
+			return fmt.Sprintf("pair (doc %d, score %v) is strictly better than the k-th best score %v (k=%d, %d live vectors) but was not returned; got %v", p.Doc, p.Score, kth, k, len(cands), got)
+		}
+	}
+	tiesReturned := 0
+	for _, g := range got {
+		if betterSet[g] {
+			continue
+		}
+		if g.Score != kth {
+			return fmt.Sprintf("returned pair (doc %d, score %v) is worse than the k-th best score %v (k=%d)", g.Doc, g.Score, kth, k)
+		}
+		tiesReturned++
+	}
+	// exactly kk vectors are selected: all better ones plus m from the tie group
+	m := kk - nBetter
+	var mults []int
+	for _, c := range tieMult {
+		mults = append(mults, c)
+	}
+	sort.Sort(sort.Reverse(sort.IntSlice(mults)))
+	minDistinct, acc := 0, 0
+	for _, c := range mults {
+		if acc >= m {
+			break
+		}
+		acc += c
+		minDistinct++
+	}
+	maxDistinct := m
+	if len(mults) < maxDistinct {
+		maxDistinct = len(mults)
+	}
+	if tiesReturned < minDistinct || tiesReturned > maxDistinct {
+		return fmt.Sprintf("k=%d with %d live vectors: %d strictly better vectors and %d tie pairs returned, but exactly %d vectors at the k-th score %v must be selected (between %d and %d distinct pairs); got %v", k, len(cands), nBetter, tiesReturned, m, kth, minDistinct, maxDistinct, got)
+	}
+	return ""
+}
+
+type fieldStats struct{ m map[string]map[string]uint64 }
+
+func (f *fieldStats) Store(statName, fieldName string, value uint64) {
+	if f.m == nil {
+		f.m = map[string]map[string]uint64{}
+	}
+	if f.m[statName] == nil {
+		f.m[statName] = map[string]uint64{}
+	}
+	f.m[statName][fieldName] = value
+}
+func (f *fieldStats) Aggregate(segment.FieldStats)          {}
+func (f *fieldStats) Fetch() map[string]map[string]uint64 { return f.m }
+
+// numVectorsStat returns the per-field num_vectors statistic of a segment.
+func numVectorsStat(seg segment.Segment) (map[string]uint64, error) {
+	r, ok := seg.(segment.FieldStatsReporter)
+	if !ok {
+		return nil, fmt.Errorf("%T reports no field stats", seg)
+	}
+	fs := &fieldStats{}
+	r.UpdateFieldStats(fs)
+	return fs.m["num_vectors"], nil
+}
+
+func isExact(vf *spec.VecField) bool { return vf == nil || len(vf.Entries) < 1000 }
+
+func allLive(uint64) bool { return true }
+
+// probeQueries are deterministic queries for a field (used where no generated queries exist).
+func probeQueries(vf *spec.VecField) [][]float32 {
+	var out [][]float32
+	if len(vf.Entries) > 0 {
+		out = append(out, append([]float32(nil), vf.Entries[0].Vec...))
+		out = append(out, append([]float32(nil), vf.Entries[len(vf.Entries)/2].Vec...))
+	}
+	z := make([]float32, vf.Dim)
+	if vf.Metric == "cosine" {
+		z[0] = 1
+	}
+	out = append(out, z)
+	o := make([]float32, vf.Dim)
+	for i := range o {
+		o[i] = float32(1 + i)
+	}
+	if vf.Metric == "cosine" {
+		o = make([]float32, vf.Dim)
+		o[vf.Dim-1] = -1
+	}
+	return append(out, o)
+}
+
+// vectorSegmentCheck: the segment's vector fields hold exactly the model's vectors
+// (probes with k = all on exact indexes force the complete pair set), the
+// statistic matches, and no other field answers vector searches.
+func vectorSegmentCheck(prop string, seg segment.Segment, want *spec.Obs, where string) *Violation {
+	var v *Violation
+	err := drive.Safe(func() error {
+		stat, err := numVectorsStat(seg)
+		if err != nil {
+			return err
+		}
+		for _, f := range seg.Fields() {
+			vf := want.Vec[f]
+			if vf == nil || len(vf.Entries) == 0 {
+				if n, ok := stat[f]; ok {
+					v = violation(prop, "vec/stat-for-field-without-vectors", "%s: field %q has no vectors in the model but reports num_vectors=%d", where, f, n)
+					return nil
+				}
+				got, err := vecSearch(seg, f, []float32{1}, 3, nil, false, nil)
+				if err != nil {
+					return err
+				}
+				for d := 2; d <= 4 && len(got) == 0; d++ {
+					got, err = vecSearch(seg, f, make([]float32, d), 3, nil, false, nil)
+					if err != nil {
+						return err
+					}
+				}
+				if len(got) != 0 {
+					v = violation(prop, "vec/search-on-field-without-vectors", "%s: field %q has no vectors in the model but a vector search returned %v", where, f, got)
+					return nil
+				}
+				continue
+			}
+			if stat[f] != uint64(len(vf.Entries)) {
+				v = violation(prop, "vec/num-vectors", "%s: field %q reports num_vectors=%d, the model has %d vectors", where, f, stat[f], len(vf.Entries))
+				return nil
+			}
+			for qi, q := range probeQueries(vf) {
+				for _, k := range []int64{int64(len(vf.Entries)) + 2, 1, 2} {
+					got, err := vecSearch(seg, f, q, k, nil, false, nil)
+					if err != nil {
+						return fmt.Errorf("search %q: %w", f, err)
+					}
+					if m := vecOracle(vf.Entries, vf.Metric, q, k, allLive, isExact(vf), got); m != "" {
+						v = violation(prop, "vec/search-mismatch", "%s: field %q probe %d %v k=%d: %s", where, f, qi, q, k, m)
+						return nil
+					}
+				}
+			}
+			// wrong dimension
+			got, err := vecSearch(seg, f, make([]float32, vf.Dim+1), 3, nil, false, nil)
+			if err != nil {
+				return err
+			}
+			if len(got) != 0 {
+				v = violation(prop, "vec/wrong-dimension", "%s: field %q (dim %d) answered a query of dimension %d with %v", where, f, vf.Dim, vf.Dim+1, got)
+				return nil
+			}
+		}
+		for f, vf := range want.Vec {
+			if len(vf.Entries) == 0 {
+				continue
+			}
+			found := false
+			for _, sf := range seg.Fields() {
+				if sf == f {
+					found = true
+				}
+			}
+			if !found {
+				v = violation(prop, "vec/field-missing", "%s: vector field %q is not among the segment's fields", where, f)
+				return nil
+			}
+		}
+		return nil
+	})
+	if err != nil {
+		return violation(prop, "vec/error", "%s: %v", where, err)
+	}
+	return v
+}
+
+// vectorEquivalence (C04): in-memory and re-opened segments answer vector searches identically and as the model says.
+func vectorEquivalence(prop string, b *spec.BatchSpec, want *spec.Obs, mem, opened segment.Segment) *Violation {
+	if v := vectorSegmentCheck(prop, mem, want, "in-memory"); v != nil {
+		return v
+	}
+	if v := vectorSegmentCheck(prop, opened, want, "re-opened"); v != nil {
+		return v
+	}
+	var v *Violation
+	err := drive.Safe(func() error {
+		for f, vf := range want.Vec {
+			for qi, q := range probeQueries(vf) {
+				for _, k := range []int64{1, 2, int64(len(vf.Entries))} {
+					a, err := vecSearch(mem, f, q, k, nil, false, nil)
+					if err != nil {
+						return err
+					}
+					bb, err := vecSearch(opened, f, q, k, nil, false, nil)
+					if err != nil {
+						return err
+					}
+					if fmt.Sprint(a) != fmt.Sprint(bb) {
+						v = violation(prop, "vec/mem-vs-mmap", "field %q probe %d k=%d: in-memory %v, re-opened %v", f, qi, k, a, bb)
+						return nil
+					}
+				}
+			}
+		}
+		return nil
+	})
+	if err != nil {
+		return violation(prop, "vec/error", "%v", err)
+	}
+	return v
+}
+
+// checkVectorEnvelope (C09): the documented envelope of every vector section
+// (id table, index length) matches the model; the opaque index blob is the
+// fake engine's and is only used to reconstruct the vectors behind the ids.
+func checkVectorEnvelope(prop, tag string, f *indep.File, want *spec.Obs) *Violation {
+	for _, fi := range f.Fields {
+		vf := want.Vec[fi.Name]
+		if fi.Vector == nil {
+			if vf != nil && len(vf.Entries) > 0 {
+				return violation(prop, "indep/vector-section-missing", "%s: field %q has %d vectors in the model but no vector section in the file", tag, fi.Name, len(vf.Entries))
+			}
+			continue
+		}
+		if vf == nil || len(vf.Entries) == 0 {
+			return violation(prop, "indep/vector-section-unexpected", "%s: field %q has a vector section with %d ids but no vectors in the model", tag, fi.Name, len(fi.Vector.Entries))
+		}
+		if len(fi.Vector.Entries) != len(vf.Entries) {
+			return violation(prop, "indep/vector-count", "%s: field %q: id table has %d entries, the model %d vectors", tag, fi.Name, len(fi.Vector.Entries), len(vf.Entries))
+		}
+		optWant := map[string]uint64{"recall": 0, "latency": 1, "memory-efficient": 2}[vf.Opt]
+		if fi.Vector.Optimization != optWant {
+			return violation(prop, "indep/vector-optimization", "%s: field %q: optimisation type %d, want %d", tag, fi.Name, fi.Vector.Optimization, optWant)
+		}
+		idx, err := faiss.ReadIndexFromBuffer(fi.Vector.IndexBytes, 0)
+		if err != nil {
+			return violation(prop, "indep/vector-index-bytes", "%s: field %q: the index bytes delimited by the envelope are not a serialized index: %v", tag, fi.Name, err)
+		}
+		gotSet := map[string]int{}
+		for _, e := range fi.Vector.Entries {
+			vec, err := idx.Reconstruct(e.VecID)
+			if err != nil {
+				idx.Close()
+				return violation(prop, "indep/vector-id-table", "%s: field %q: id %d of the id table is unknown to the index: %v", tag, fi.Name, e.VecID, err)
+			}
+			gotSet[fmt.Sprint(e.Doc, vec)]++
+		}
+		idx.Close()
+		wantSet := map[string]int{}
+		for _, e := range vf.Entries {
+			wantSet[fmt.Sprint(e.Doc, e.Vec)]++
+		}
+		for k, n := range wantSet {
+			if gotSet[k] != n {
+				return violation(prop, "indep/vector-content", "%s: field %q: (doc, vector) %s occurs %d times via the id table, %d times in the model", tag, fi.Name, k, gotSet[k], n)
+			}
+		}
+	}
+	return nil
+}
+
+// faissMisuse reports engine-level misuse seen since the last reset ("" if none).
+func faissMisuse() string {
+	if n := faiss.VerifDoubleClosed(); n > 0 {
+		return fmt.Sprintf("%d native index(es) were closed twice", n)
+	}
+	if n := faiss.VerifUsedAfterClose(); n > 0 {
+		return fmt.Sprintf("%d call(s) on an already closed native index", n)
+	}
+	if n := faiss.VerifClosedInUse(); n > 0 {
+		return fmt.Sprintf("%d native index(es) were closed while an operation was in flight on them", n)
+	}
+	if n := faiss.VerifSelectorMisuse(); n > 0 {
+		return fmt.Sprintf("%d selector misuse(s) (double delete / use after delete)", n)
+	}
+	return ""
 }
